@@ -306,3 +306,25 @@ _EXTRA3 = {
 }
 for _k, _v in _EXTRA3.items():
     CLAIMED[_k]["text"] = CLAIMED[_k]["text"].rstrip() + " " + _v.strip()
+
+
+# clauses added after the fourth round of seeded changes
+_EXTRA4 = {
+    "C01": "Also (round 4): post_process examines every created coin for the ephemeral-output rule; AGG_SIG keys only through the checked decoder (shared C05.4).",
+    "C04": "Also (round 4): From<EvalErr> maps exactly one variant to CostExceeded; two-byte opcode cost rows (shared C01.2).",
+    "C06": "Also (round 4): every relative/birth/skipped-relative arm records the spend for the ephemeral check (C06.2, shared C03.6).",
+    "C07": "Also (round 4): both paths decode the generator with node_from_bytes_backrefs; charge-paired budget guards in the shared per-spend code.",
+    "C08": "Also (round 4): mempool admission verifies the aggregate signature on every accepting path; fingerprint arity table (shared C05.5 / C19.4).",
+    "C09": "Also (round 4): the scanning loops end only at the end of the list or on an error; SpendBundle::additions runs under ClvmFlags::empty() (C09.6).",
+    "C10": "Also (round 4): spend_vbytes = interned_vbytes + COST_CONS(3) and the estimate grows by spend_vbytes * cost_per_byte exactly.",
+    "C11": "Also (round 4): default ClvmEncoder::encode_bigint starts from to_signed_bytes_be with the exact stripping tests (C11.4); trusted scans sanitise amounts with parse_amount.",
+    "C13": "Also (round 4): provided hash() = Sha256 over update_digest(self) only; to_bytes() = stream(self); Signature::from_bytes_unchecked has the single accepting path blst_p2_uncompress(buf) ok.",
+    "C15": "Also (round 4): rule W verdict-from-native (no Ok shortcut in a binding).",
+    "C16": "Also (round 4): only the checked decoder and Streamable::parse call the unchecked point decoders; no mixed (affine) addition on projective points.",
+    "C17": "Also (round 4): memo key = the popped node in get / should_memoize / ConsAddCache / insert; tree_hash_from_bytes has exactly its two paths.",
+    "C18": "Also (round 4): the lineage walk branches only on next_index and get_block's result; ProofOfInclusion::valid verdict table (C18.8).",
+    "C19": "Also (round 4): hash_atom_list frames every atom (length then bytes) on every iteration.",
+    "C20": "Also (round 4): parse_hex_string hands hex::decode the caller's string minus at most the 0x prefix.",
+}
+for _k, _v in _EXTRA4.items():
+    CLAIMED[_k]["text"] = CLAIMED[_k]["text"].rstrip() + " " + _v.strip()
